@@ -48,7 +48,7 @@ impl Property for C05 {
         "C05"
     }
     fn rule(&self) -> &'static str {
-        "profile `expansion`: programs whose rows hold 0-3 `C` and 0-5 `X` in input-bound columns at any position, X/Z in expected columns, literals, (expr) and bits() in between, at loop depth 0-3, multi-bit and bidirectional inputs, permuted headers that may leave signals out, both driver types; in a third of the cases the driver fails on one call and the caller goes on (the failed item keeps its position in the expansion, represented by the vector the driver received); every row statement carries a tag in a dedicated input column. Oracle (self-consistent): the items are cut into runs of equal tag; each run must consist of whole evaluations of g = 2^k x (3 if C else 1) items; within an evaluation item number p belongs to assignment a = p / phases, phase p % phases: the j-th X column from the left holds bit j of a, every C column holds 0,1,0 over the phases, only the last phase is checked (outputs non-empty) and is sent with the output-reading method, the other phases with the write-only method (as seen by an overriding driver), every other input and every expected value is the same in all items of the evaluation, expected columns holding a literal X / Z report X / Z, and the driver received exactly row.inputs. Non-trivial: an evaluation with >= 2 X, or >= 2 C, or both C and X was checked; distinct by source + signals + driver."
+        "profile `expansion`: programs whose rows hold 0-3 `C` and 0-5 `X` in input-bound columns at any position, X/Z in expected columns, literals, (expr) and bits() in between, at loop depth 0-3, multi-bit and bidirectional inputs, permuted headers that may leave signals out, one case in thirty with 61-67 extra one-bit inputs (columns 64 and up), both driver types; in a third of the cases the driver fails on one call and the caller goes on (the failed item keeps its position in the expansion, represented by the vector the driver received); every row statement carries a tag in a dedicated input column. Oracle (self-consistent): the items are cut into runs of equal tag; each run must consist of whole evaluations of g = 2^k x (3 if C else 1) items; within an evaluation item number p belongs to assignment a = p / phases, phase p % phases: the j-th X column from the left holds bit j of a, every C column holds 0,1,0 over the phases, only the last phase is checked (outputs non-empty) and is sent with the output-reading method, the other phases with the write-only method (as seen by an overriding driver), every other input and every expected value is the same in all items of the evaluation, expected columns holding a literal X / Z report X / Z, and the driver received exactly row.inputs. Non-trivial: an evaluation with >= 2 X, or >= 2 C, or both C and X was checked; distinct by source + signals + driver."
     }
     fn cases(&self, tier: Tier) -> u64 {
         match tier {
@@ -57,7 +57,7 @@ impl Property for C05 {
         }
     }
     fn required_classes(&self) -> Vec<&'static str> {
-        vec!["C+X-row", "clock-triple", "x-expansion", "row>=2X", "row>=2C", "overriding-driver", "defaulting-driver", "expansion-in-loop", "literal-expected-X", "literal-expected-Z", "repeat-expansion", "expansion-item-after-driver-failure", "input-without-column"]
+        vec!["C+X-row", "clock-triple", "x-expansion", "row>=2X", "row>=2C", "overriding-driver", "defaulting-driver", "expansion-in-loop", "literal-expected-X", "literal-expected-Z", "repeat-expansion", "expansion-item-after-driver-failure", "input-without-column", "header>=65-columns"]
     }
     fn run(&self, s: &Streams) -> CaseOut {
         let mut out = CaseOut::new();
@@ -65,6 +65,9 @@ impl Property for C05 {
         // the header may leave signals out: an input that has no column keeps its default, an
         // expected column is still never expanded
         cfg.omit_cols = true;
+        // one case in thirty has 61-67 extra one-bit inputs: X and C also occur in columns 64 and up
+        cfg.wide_inputs = Ch::new(&s[2]).chance(1, 30);
+        out.class_if(cfg.wide_inputs, "header>=65-columns");
         let mut built = gen_case(&mut Ch::new(&s[0]), &cfg);
         let rows = instrument(&mut built, &mut Ch::new(&s[1]), 0, ProbePref::Vars, &[]);
         let text = built_text(&built);
